@@ -858,6 +858,19 @@ fn dump<'tcx>(tcx: TyCtxt<'tcx>) -> J {
             }
             o.put("upvars", J::Arr(ups));
             o.put("sig", J::s(format!("{:?}", ca.sig())));
+            let sig = ca.sig().skip_binder();
+            let mut ins = Vec::new();
+            if let Some(t0) = sig.inputs().get(0) {
+                if let ty::Tuple(ts) = t0.kind() {
+                    for x in ts.iter() {
+                        ins.push(J::s(x.to_string()));
+                    }
+                } else {
+                    ins.push(J::s(t0.to_string()));
+                }
+            }
+            o.put("inputs", J::Arr(ins));
+            o.put("output", J::s(sig.output().to_string()));
             let mut tr = J::obj();
             if let Some(s) = send {
                 tr.put("Send", J::Bool(trait_answer(tcx, did, t, s)));
